@@ -657,7 +657,7 @@ func judgeAfterCrash(r *Result, sc *StoreCase) []Violation {
 	}
 	var out []Violation
 	for _, v := range judgeAfterRestart(r, "C21", sc.Backend) {
-		if uncertainFrom >= 0 && violationTouchesOpsFrom(r, v, uncertainFrom, rs) {
+		if uncertainFrom >= 0 && violationTouchesOpsFrom(r, v, uncertainFrom, rs, cs) {
 			continue
 		}
 		if v.Class == "discarded-state-resurrected" || v.Class == "unexpected-delivery-after-restart" {
@@ -685,9 +685,70 @@ func judgeAfterCrash(r *Result, sc *StoreCase) []Violation {
 	return out
 }
 
+// opAckedBefore reports whether operation i (a QoS>0 publish, a subscribe or an unsubscribe) was positively
+// acknowledged to its client before history position cs. The acknowledgement must be attributable: no other
+// operation of the same slot from the cut window on uses the same packet identifier.
+func opAckedBefore(r *Result, m *Model, i int, cs int) bool {
+	op := &r.Plan.Ops[i]
+	if op.Pkt == nil || op.Pkt.PacketID == 0 {
+		return false
+	}
+	var want []byte
+	switch {
+	case op.Kind == "publish" && op.Pkt.Type == refcodec.PUBLISH && op.Pkt.Qos == 1:
+		want = []byte{refcodec.PUBACK}
+	case op.Kind == "publish" && op.Pkt.Type == refcodec.PUBLISH && op.Pkt.Qos == 2:
+		want = []byte{refcodec.PUBREC}
+	case op.Kind == "subscribe":
+		want = []byte{refcodec.SUBACK}
+	case op.Kind == "unsubscribe":
+		want = []byte{refcodec.UNSUBACK}
+	default:
+		return false
+	}
+	c := m.connOfOp(i)
+	if c == nil {
+		return false
+	}
+	opSeq := -1
+	for _, e := range r.H.Evs {
+		if e.Kind == "op" && e.Op == i {
+			opSeq = e.Seq
+			break
+		}
+	}
+	if opSeq < 0 {
+		return false
+	}
+	for _, w := range BuildWindows(r) {
+		mine := false
+		for _, j := range w.Ops {
+			mine = mine || j == i
+		}
+		if !mine {
+			continue
+		}
+		for _, j := range w.Ops {
+			o2 := &r.Plan.Ops[j]
+			if j != i && o2.Slot == op.Slot && o2.Pkt != nil && o2.Pkt.PacketID == op.Pkt.PacketID {
+				return false
+			}
+		}
+	}
+	for _, pr := range c.Pkts {
+		if pr.Seq > opSeq && pr.Seq < cs && pr.P.PacketID == op.Pkt.PacketID && pr.P.Type == want[0] {
+			if (pr.P.Type == refcodec.PUBACK || pr.P.Type == refcodec.PUBREC) && pr.P.ReasonCode >= 0x80 {
+				return false
+			}
+			return true
+		}
+	}
+	return false
+}
+
 // violationTouchesOpsFrom reports whether a post-restart violation may stem from an operation issued at or
 // after op index `from` (those were cut by the crash, so the model's expectation is not an obligation).
-func violationTouchesOpsFrom(r *Result, v Violation, from int, restartSeq int) bool {
+func violationTouchesOpsFrom(r *Result, v Violation, from int, restartSeq int, cs int) bool {
 	// conservative: collect session ids / topics / filters touched by the cut operations
 	m := NewModel(r)
 	touched := map[string]bool{}
@@ -695,6 +756,9 @@ func violationTouchesOpsFrom(r *Result, v Violation, from int, restartSeq int) b
 		op := &r.Plan.Ops[i]
 		if op.Kind == "restart" {
 			break
+		}
+		if opAckedBefore(r, m, i, cs) {
+			continue // acknowledged to its client before the crash instant: its obligations stand
 		}
 		if c := m.connOfOp(i); c != nil {
 			touched["sess:"+c.CID] = true
